@@ -402,3 +402,43 @@ func ZZ_C01_threePodsOnOneNode() {
 	nondet.Assert("C01.three.nothing-created", c.Count("create", "Pod") == 0)
 	nondet.Reach("C01.three.oldest-listed-last", !deleted["oldest"] && c.Count("delete", "Pod") == 2)
 }
+
+// ZZ_C01_failedCreationsNotRepeatedInTheSync: "it never creates two pods for one node in the same
+// sync" when the API server misbehaves: three eligible nodes without a pod, every pod creation of the
+// sync independently succeeds, is rejected, or is applied with its answer lost, and a failure is the
+// plain error or a typed transient one (ServerTimeout).  Whatever the pattern, one sync asks for at
+// most one pod per node, and the store holds at most one pod per node afterwards.
+func ZZ_C01_failedCreationsNotRepeatedInTheSync() {
+	c, ds, rsNew, _ := zzStore(3)
+	ds.Status.ActiveReplicaSet = rsNew.Name
+	ds.Spec.Strategy.RollingUpdate.SlowStartAdditiveIncrease = &intstr.IntOrString{Type: intstr.Int, IntVal: 5}
+	c.InjectFaults = true
+	c.InjectTransient = true
+	c.FaultOnly = func(verb, kind, name, node string) bool { return verb == "create" && kind == "Pod" }
+	_, err := zzReconcile(zzReconciler(c, nondet.Bool("nodeAffinitySupported")), zzNS, rsNew.Name)
+	nondet.Observe("error", err != nil)
+	asked := map[string]int{}
+	failed := 0
+	for _, e := range c.Log {
+		if e.Verb == "create" && e.Kind == "Pod" {
+			asked[e.Node]++
+			if e.Failed {
+				failed++
+			}
+		}
+	}
+	for i := 0; i < 3; i++ {
+		nondet.Assert("C01.failed-create.one-request-per-node", asked[zzNodeName(i)] <= 1)
+	}
+	held := map[string]int{}
+	for _, p := range c.Pods {
+		held[fakeapi.PodNode(p)]++
+	}
+	for i := 0; i < 3; i++ {
+		nondet.Assert("C01.failed-create.one-pod-per-node", held[zzNodeName(i)] <= 1)
+	}
+	nondet.Assert("C01.failed-create.failure-reported", (failed > 0) == (err != nil))
+	nondet.Observe("created", len(c.Pods))
+	nondet.Reach("C01.failed-create.some-failed-some-created", failed > 0 && len(c.Pods) > 0)
+	nondet.Reach("C01.failed-create.all-created", failed == 0 && len(c.Pods) == 3)
+}
